@@ -53,7 +53,8 @@ theorem floatResult_ok {x : Option Nat} {r : Value} (h : Arith.floatResult x = .
 /-- `mod`: a float modulus gives a float; an integer modulus gives the kind of the dividend. -/
 theorem tryRem_ok {v m r : Value} (h : ofArith (Arith.tryRem v m) = .ok r) :
     (tagOf m).isNum = true ∧ (tagOf v).isNum = true ∧
-    (tagOf m = .float → tagOf r = .float) ∧ (tagOf m = .integer → tagOf r = tagOf v) := by
+    (tagOf m = .float → tagOf r = .float) ∧ (tagOf m = .integer → tagOf r = tagOf v) ∧
+    m ≠ .int 0 := by
   have h' : Arith.tryRem v m = .ok r := by
     cases hx : Arith.tryRem v m <;> simp [hx, ofArith] at h
     subst h; rfl
@@ -63,13 +64,13 @@ theorem tryRem_ok {v m r : Value} (h : ofArith (Arith.tryRem v m) = .ok r) :
     split at h'
     · cases h'
     · cases v <;> simp only at h' <;> try (cases h'; done)
-      · cases h'; exact ⟨rfl, rfl, by simp [tagOf], fun _ => rfl⟩
-      · exact ⟨rfl, rfl, by simp [tagOf], fun _ => floatResult_ok h'⟩
+      · cases h'; exact ⟨rfl, rfl, by simp [tagOf], fun _ => rfl, by simpa using ‹¬ _›⟩
+      · exact ⟨rfl, rfl, by simp [tagOf], fun _ => floatResult_ok h', by simpa using ‹¬ _›⟩
   · split at h'
     · cases h'
     · cases v <;> simp only at h' <;> try (cases h'; done)
-      · exact ⟨rfl, rfl, fun _ => floatResult_ok h', by simp [tagOf]⟩
-      · exact ⟨rfl, rfl, fun _ => floatResult_ok h', by simp [tagOf]⟩
+      · exact ⟨rfl, rfl, fun _ => floatResult_ok h', by simp [tagOf], by simp⟩
+      · exact ⟨rfl, rfl, fun _ => floatResult_ok h', by simp [tagOf], by simp⟩
 
 theorem tag_of_isInteger {v : Value} {k : Kind} (hk : k.isInteger = true) (hm : mem v k = true) :
     tagOf v = .integer := by
